@@ -18,8 +18,58 @@ class Watchdog(Exception):
     pass
 
 
+class LoaderBudget(Exception):
+    pass
+
+
+_MON = {"tool": None, "count": 0, "limit": 0, "dir": ""}
+
+
+def _on_start(code, _offset):
+    import sys
+
+    if not code.co_filename.startswith(_MON["dir"]):
+        return sys.monitoring.DISABLE
+    _MON["count"] += 1
+    if _MON["count"] > _MON["limit"]:
+        _MON["limit"] = 1 << 62  # raise once
+        raise LoaderBudget
+    return None
+
+
+def _monitor_on(limit: int) -> None:
+    """Count Python function entries inside pest/ (sys.monitoring PY_START, ~5 % cost); abort the load beyond `limit`."""
+    import sys
+
+    import pest
+
+    if _MON["tool"] is None:
+        _MON["dir"] = os.path.dirname(pest.__file__)
+        tool = sys.monitoring.PROFILER_ID
+        sys.monitoring.use_tool_id(tool, "pv-c11")
+        sys.monitoring.register_callback(tool, sys.monitoring.events.PY_START, _on_start)
+        _MON["tool"] = tool
+    _MON["count"] = 0
+    _MON["limit"] = limit
+    sys.monitoring.set_events(_MON["tool"], sys.monitoring.events.PY_START)
+
+
+def _monitor_off() -> int:
+    import sys
+
+    sys.monitoring.set_events(_MON["tool"], 0)
+    return _MON["count"]
+
+
 def _alarm(_sig, _frm):
     raise Watchdog
+
+
+LOADER_STATS = {"max_entries_per_char_x100": 0, "budget_violations": 0}
+# measured on the unchanged tree (evidence key loader_function_entries_per_character_x100): at most ~2 200 entries per
+# character (stacked counted repetitions unrolled by the optimizer); the budget is ~10x that plus a constant
+BUDGET_PER_CHAR = 20_000
+BUDGET_CONST = 1_000_000
 
 
 def nesting(text: str) -> int:
@@ -48,7 +98,9 @@ def classify(text: str, optimized: bool):
     from pest import Parser, PestGrammarError
 
     signal.signal(signal.SIGALRM, _alarm)
-    signal.setitimer(signal.ITIMER_REAL, 20.0)
+    signal.setitimer(signal.ITIMER_REAL, 60.0)
+    # bounded progress in LOGICAL steps: function entries inside pest/ while loading (never wall-clock)
+    _monitor_on(BUDGET_PER_CHAR * len(text) + BUDGET_CONST)
     try:
         try:
             if optimized:
@@ -75,8 +127,10 @@ def classify(text: str, optimized: bool):
                     return "bad-position", f"message points at {ln}:{col}, which does not exist in the text"
                 return ("PestGrammarSyntaxError" if type(e).__name__ == "PestGrammarSyntaxError" else "PestGrammarError"), ""
             return "PestGrammarError-without-position", ""
+        except LoaderBudget:
+            return "step-budget", f"loader made more than {BUDGET_PER_CHAR * len(text) + BUDGET_CONST} function entries inside pest/ on a {len(text)}-character text (no progress?)"
         except Watchdog:
-            return "watchdog", "loader still running after 20 s"
+            return "watchdog", "loader still running after 60 s"
         except RecursionError:
             return "escaped:RecursionError", ""
         except MemoryError:
@@ -84,10 +138,17 @@ def classify(text: str, optimized: bool):
         except Exception as e:  # noqa: BLE001
             return "escaped:" + type(e).__name__, str(e)[:200]
     finally:
+        n = _monitor_off()
         signal.setitimer(signal.ITIMER_REAL, 0)
+        if n > LOADER_STATS["max_entries_per_char_x100"] * max(1, len(text)) // 100 and len(text) >= 20:
+            LOADER_STATS["max_entries_per_char_x100"] = n * 100 // max(1, len(text))
 
 
 def judge(text: str, source: str, acc: Acc, viol_keys: dict) -> None:
+    if LOADER_STATS["budget_violations"] >= 3:
+        # three non-terminating loads are witness enough; each further one would burn the whole budget again
+        acc.count("skipped_after_three_step_budget_violations")
+        return
     for optimized in (False, True):
         cls, detail = classify(text, optimized)
         acc.count("loads")
@@ -96,6 +157,14 @@ def judge(text: str, source: str, acc: Acc, viol_keys: dict) -> None:
         if cls.startswith("PestGrammar") and cls != "PestGrammarError-without-position":
             acc.count("messages_rendered_and_position_checked")
         bad = cls.startswith("escaped:") or cls in ("render-raises", "bad-position")
+        if cls == "step-budget":
+            # unclosed nested block comments are exponential in pest's own PEG as well; counts / nesting bounds as stated
+            if len(text) <= 2048 and nesting(text) <= 40 and max_count(text) <= 64 and text.count("/*") <= 12:
+                bad = True
+                LOADER_STATS["budget_violations"] += 1
+            else:
+                acc.count("abstain.beyond_stated_bounds")
+                continue
         if cls == "watchdog":
             if len(text) <= 2048 and nesting(text) <= 40 and max_count(text) <= 64:
                 acc.inconclusive.append(f"loader watchdog on {text[:80]!r}")
@@ -173,6 +242,7 @@ def worker(shard: dict) -> dict:  # noqa: PLR0912
                     judge(t[:i] + ch + t[i + 1 :], "single_char_substitution", acc, vk)
             if i < len(t):
                 judge(t[:i] + t[i + 1 :], "single_char_deletion", acc, vk)
+    acc.maxi("loader_function_entries_per_character_x100", LOADER_STATS["max_entries_per_char_x100"])
     return acc.dump()
 
 
@@ -223,7 +293,7 @@ def replay(path: str) -> int:
     v = load_replay(path)["violation"]
     cls, detail = classify(v["text"], v["optimized"])
     print(f"text={v['text']!r} optimized={v['optimized']} -> {cls} {detail}")
-    if cls.startswith("escaped:") or cls in ("render-raises", "bad-position"):
+    if cls.startswith("escaped:") or cls in ("render-raises", "bad-position", "step-budget"):
         print(f"VIOLATION property=C11 replay={path}")
         return 1
     print("not reproduced")
